@@ -16,7 +16,7 @@ LEVEL = 'model_checking'
 RULE = ('programs (facts, rules with cut / if-then-else / negation, atoms with embedded newlines and with a # after a '
         'newline, atoms containing every other line separator (bare CR, CR LF, VT, FF, FS/GS/RS, NEL, LS, PS), non-ASCII atoms, atoms with NUL and other control characters, lists and anonymous variables, empty and comment-only files, a syntax error, a '
         'non-callable goal, a clause too large for Python, an unsupported term) x ALL 16 combinations of -d '
-        '--debug-parser --debug-generator --debug-filename x {stdout, -o file} x {file argument, - with the text on '
+        '--debug-parser --debug-generator --debug-filename x {stdout, -o file that already exists with longer content} x {file argument, - with the text on '
         'standard input, the path /dev/stdin fed from a pipe (a source that is not a regular file)} x {one source, two sources, a second source that does not compile, a first source that does not compile followed by this one, a first source that stops in the middle of a clause followed by this one}, each run as a real '
         'subprocess of `python -m yldprolog.compiler`. Checked: with the debug options off the output equals the '
         'concatenation of compile_prolog_from_file of the sources in order; the exit status is non-zero iff a source does '
@@ -119,8 +119,10 @@ def check_config(tmp, table, cfg, cache):
     outpath = None
     if out == 'file':
         outpath = os.path.join(tmp, 'out_%d.py' % os.getpid())
-        if os.path.exists(outpath):
-            os.unlink(outpath)
+        # the output file already exists and holds something longer than any output (an earlier,
+        # bigger compilation to the same path): -o replaces the file, it does not write into it
+        with open(outpath, 'w') as f:
+            f.write('# output of an earlier compilation\nstale_name\n' * 3000)
         args += ['-o', outpath]
     stdin_text = None
     paths = []
